@@ -242,6 +242,18 @@ theorem c04_request_headers (h : Hdr) (ip : Option Str) (hw : WF h) (hup : upgra
         · simp [hu]
         · simp [hu, values_eq]
 
+/-- a request that `UpgradeAwareHandler.ServeHTTP` sends down the reverse-proxy path (`httpstream.IsUpgradeRequest` is
+    false) has no upgrade type in the reverse proxy's sense: the hypothesis of `c04_request_headers` holds -/
+theorem c04_nonupgrade_has_no_upgrade_type (h : Hdr) (hnu : isUpgradeRequest h = false) : upgradeType (director h) = [] := by
+  unfold upgradeType
+  rw [values_director_connection, upgradeType_nil_of_not_upgrade h hnu]
+  simp
+
+/-- `c04_request_headers` under the condition the code itself tests -/
+theorem c04_request_headers_nonupgrade (h : Hdr) (ip : Option Str) (hw : WF h) (hnu : isUpgradeRequest h = false) (k : Str) :
+    (outHeaders h ip).values k = reqHdrExpected h ip k :=
+  c04_request_headers h ip hw (c04_nonupgrade_has_no_upgrade_type h hnu) k
+
 /-- corollary: an end-to-end header (not hop-by-hop, not listed in `Connection`, not `X-Forwarded-For`, and not an
     absent `User-Agent`) reaches the upstream with the same values in the same order -/
 theorem c04_request_end_to_end (h : Hdr) (ip : Option Str) (hw : WF h) (hup : upgradeType (director h) = []) (k : Str)
@@ -286,13 +298,14 @@ theorem c04_request_method_host_body (r : Req) (u : UpReq) (h : forwardRequest r
   | none => simp [ht] at h
   | some t => simp [ht] at h; subst h; simp
 
-/-- **Request fidelity**: for every request with a valid slash-led path that is not an upgrade request, the request
+/-- **Request fidelity**: for every request with a valid slash-led path that is not an upgrade request (the test
+    `UpgradeAwareHandler.ServeHTTP` itself makes: no `Connection` value contains "upgrade"), the request
     handed to the upstream has the same method, host, body, the same escaped path bytes, a query that parses to the
     same multimap, and per header name the values `reqHdrExpected` prescribes. -/
 theorem c04_request_fidelity (r : Req) (P : Str)
     (hp : hasPrefixSlash (cut 63 r.target).1 = true) (hv : validEncoded (cut 63 r.target).1 = true)
     (hd : unescape .path (cut 63 r.target).1 = some P)
-    (hup : upgradeType (director (afterAuthentication (parseHeaders r.lines))) = []) :
+    (hnu : isUpgradeRequest (afterAuthentication (parseHeaders r.lines)) = false) :
     ∃ u, forwardRequest r = some u ∧ u.method = r.method ∧ u.host = r.host ∧ u.body = r.body
       ∧ (cut 63 u.target).1 = (cut 63 r.target).1
       ∧ (∀ k, valuesOf k (parseQuery (cut 63 u.target).2) = valuesOf k (parseQuery (cut 63 r.target).2))
@@ -347,7 +360,7 @@ theorem c04_request_fidelity (r : Req) (P : Str)
       rw [this, cut_append 63 _ _ h63]
       exact c04_query_multimap _ k
   · intro k
-    exact c04_request_headers _ _ (c04_parsed_headers_wf r.lines) hup k
+    exact c04_request_headers_nonupgrade _ _ (c04_parsed_headers_wf r.lines) hnu k
 
 /-! ## response -/
 
@@ -562,7 +575,7 @@ example :
                      body := [], remoteIP := some [49] }
     hasPrefixSlash (cut 63 r.target).1 = true ∧ validEncoded (cut 63 r.target).1 = true
       ∧ unescape .path (cut 63 r.target).1 = some [47, 97, 47, 98]
-      ∧ upgradeType (director (afterAuthentication (parseHeaders r.lines))) = [] := by decide
+      ∧ isUpgradeRequest (afterAuthentication (parseHeaders r.lines)) = false := by decide
 
 /-- a forward scenario and a terminated one exist -/
 example : serve ⟨true, false, true, false, true, .none, true, true, [], true⟩ = .forward := by decide
